@@ -231,6 +231,7 @@ def build_harness(ctx):
 # watchdog; the harness logs every operation before executing it (VERIF_PROGRESS), so the script
 # that hung is known
 HANGS = []
+CRASHES = []
 PROGRESS = os.path.join(VERIF, "run", "progress-%d.txt" % os.getpid())
 
 
@@ -249,6 +250,16 @@ def harness(args, timeout=None, input=None):
         except OSError:
             pass
         HANGS.append({"args": [str(a) for a in args], "timeout": timeout, "script": script})
+    elif rc < 0 or rc == 134 or "memory allocation of" in out[-2000:]:
+        # the process was killed (abort on a failed allocation, a signal): the operation it was executing is the
+        # last line of the progress log
+        script = []
+        try:
+            script = open(PROGRESS).read().splitlines()
+        except OSError:
+            pass
+        msg = [l for l in out.splitlines() if "memory allocation of" in l or "SIG" in l or "abort" in l.lower()]
+        CRASHES.append({"args": [str(a) for a in args], "rc": rc, "script": script, "message": (msg or [out.strip()[-200:]])[-1][:200]})
     return rc, out
 
 
@@ -325,6 +336,30 @@ def finish(ctx, level="proof", checker_cmd=None, extra_assumptions=()):
             ctx.violations.append({"signature": "hang", "what": "the library did not return from `%s` (script of %d operations)" % (hg["script"][-1][:80], len(hg["script"])), "replay": path})
         else:
             ctx.undischarged.append("the harness did not return within %s s (%s)" % (hg["timeout"], " ".join(hg["args"][:3])))
+    for k, cr in enumerate(CRASHES):
+        if not cr["script"]:
+            continue
+        last = cr["script"][-1]
+        path = os.path.join(ctx.replaydir, "crash_%d.txt" % k)
+        kept = ""
+        # an image being opened: keep it beside the replay (the scratch directory is removed afterwards)
+        for tok in last.split():
+            if tok.startswith("/") and os.path.isfile(tok):
+                dst = os.path.join(ctx.replaydir, "crash_%d_%s" % (k, os.path.basename(tok)))
+                try:
+                    import shutil
+                    shutil.copyfile(tok, dst)
+                    kept = dst
+                except OSError:
+                    pass
+        with open(path, "w") as f:
+            f.write("# %s: the harness process (%s) was killed (exit status %s: %s) while executing the last operation below\n"
+                    % (ctx.pid, " ".join(cr["args"][:3]), cr["rc"], cr["message"]))
+            if kept:
+                f.write("# image: %s\n" % kept)
+            f.write("\n".join(cr["script"][-50:]) + "\n")
+        ctx.violations.append({"signature": "crash", "what": "the process died (%s) during `%s`" % (cr["message"][:100], last[:100]), "replay": path})
+        ctx.undischarged[:] = [u for u in ctx.undischarged if "crashed" not in u]
     if ctx.violations:
         rc = 1
         for v in ctx.violations:
